@@ -4,8 +4,10 @@
    (greedy score or random); and they keep an F2-independent list independent (then the strings stay pairwise distinct).
    NOTE the limit of the second theorem: a list that generates su(2^n) has at least 2n+1 members and is therefore
    never F2-independent, so for the inputs of this property distinctness of the output is NOT a consequence of it;
-   distinctness, the bound 2n+1 and termination of the retry loop are explored per run with a watchdog (partial). *)
-From PauLie Require Import Pauli Sym ClSym Optimise OptimiseT GraphDetT IndepT.
+   distinctness and termination of the retry loop are explored per run with a watchdog (partial).  The lower bound is
+   proved: no list of fewer than 2n+1 strings generates all 4^n - 1 non-identity strings (n >= 2), because an
+   F2-independent list never generates its whole span (a quadratic form vanishes on some product of generators). *)
+From PauLie Require Import Pauli Sym ClSym Optimise OptimiseT GraphDetT IndepT ClosureT InvarT MinGenT.
 
 Theorem C20_contractions_preserve : forall choices l,
   (forall p, ClS (fun g => In g l) p <-> ClS (fun g => In g (run_contractions l choices)) p) /\
@@ -20,6 +22,17 @@ Print Assumptions C20_contractions_keep_independence.
 Theorem C20_independent_strings_are_distinct : forall l, independent l -> NoDup l /\ ~ In pid l.
 Proof. exact independent_distinct. Qed.
 Print Assumptions C20_independent_strings_are_distinct.
+
+(* the lower bound "at least 2n+1": every list that generates su(2^n) (all non-identity strings), n >= 2, has 2n+1 or more
+   members; with C20_contractions_preserve the optimiser can never return fewer *)
+Theorem C20_at_least_2n_plus_1 : forall N (G : list pstr), (2 <= N)%nat -> (forall g, In g G -> length g = N) ->
+  (forall p, length p = N -> p <> identity N -> ClL (fun g => In g G) p) -> (2 * N + 1 <= length G)%nat.
+Proof. exact min_generators_strs. Qed.
+Print Assumptions C20_at_least_2n_plus_1.
+Theorem C20_independent_never_generates_its_span : forall gs, independent gs -> (3 <= length gs)%nat ->
+  exists u, length u = length gs /\ sprod u gs <> pid /\ ~ ClS (fun g => In g gs) (sprod u gs).
+Proof. exact independent_never_full. Qed.
+Print Assumptions C20_independent_never_generates_its_span.
 
 Theorem C20_connections_are_anticommuting_members : forall l x y,
   In (x, y) (list_connections l) -> In x l /\ In y l /\ anti x y = true.
